@@ -3,6 +3,8 @@ package props
 import (
 	"fmt"
 
+	"github.com/kstenerud/go-concise-encoding/configuration"
+
 	"pgregory.net/rapid"
 
 	"verif/internal/gen"
@@ -12,24 +14,38 @@ import (
 // specification before the call and compared, strictly (nil-ness, NaN payloads, big-number sign /
 // words / precision / mode / form / exponent), against the same specification afterwards.
 
+// C18Case: a C05 case plus the scalar numeric formats of the CTE encoder (a setting may change how a number
+// is written, never the number the caller holds).
+type C18Case struct {
+	C05Case
+	IntFmt uint8 `json:"int_fmt"` // Encoder.CTE.DefaultNumericFormats.Int / Uint / BinaryFloat (0 = decimal, 4..9; floats 0, 8, 9)
+}
+
 func init() {
 	Register(&Prop{
 		ID:  "C18",
-		New: func() interface{} { return &C05Case{} },
+		New: func() interface{} { return &C18Case{} },
 		Gen: func(t *rapid.T, ctx *Ctx) interface{} {
 			o := valOpts(ctx)
 			o.BigPtrBias = true
 			o.WideBigFloat = true
+			o.HandBuiltTimes = true
 			avoidVal(o)
-			c := &C05Case{ValCase: *genValCase(t, ctx, o)}
+			c := &C18Case{C05Case: C05Case{ValCase: *genValCase(t, ctx, o)}}
+			c.IntFmt = uint8(rapid.SampledFrom([]int{0, 0, 4, 5, 6, 7, 8, 9}).Draw(t, "intfmt"))
 			c.Recursion = rapid.IntRange(0, 3).Draw(t, "recursion") == 0
 			c.Omit = rapid.SampledFrom([]string{"empty", "never", "zero"}).Draw(t, "omit")
 			c.Camel = rapid.Bool().Draw(t, "camel")
 			return c
 		},
 		Check: func(ci interface{}, ctx *Ctx) error {
-			c := ci.(*C05Case)
+			c := ci.(*C18Case)
 			cfg, _ := c.config()
+			nf := &cfg.Encoder.CTE.DefaultNumericFormats
+			nf.Int, nf.Uint = configuration.CTENumericFormat(c.IntFmt), configuration.CTENumericFormat(c.IntFmt)
+			if c.IntFmt == 0 || c.IntFmt >= 8 {
+				nf.BinaryFloat = configuration.CTENumericFormat(c.IntFmt)
+			}
 			valFeatures(ctx, c.Type, c.Val)
 			// non-trivial: the value reaches a pointer-held big number or a slice
 			nt := false
